@@ -290,7 +290,7 @@ AMP_PATTERNS = [(1, 2, 150, 2, 1), (2, 150, 1, 150, 2), (150, 1, 2, 1, 150)]
 
 
 def bounds(tier):
-    # full: all 24^L static stage shapes; pat: 8^L control shapes x 3 amplification patterns
+    # full: all 24^L static stage shapes; pat: 8^L control shapes x 3 amplification patterns (length 5: 1 rotating pattern)
     if tier == "quick":
         return dict(full=(1, 2, 3), pat={}, none_answer_upto=2)
     return dict(full=(1, 2, 3), pat={4: None, 5: 3}, none_answer_upto=2)
@@ -307,8 +307,9 @@ def scenarios(tier):
                 if L <= bd["none_answer_upto"] and any(s[0] for s in stages):
                     out.append(("syn", (halt, 4, stages), None))
     for L, dev in sorted(bd["pat"].items()):
-        for ctrl in itertools.product(CTRL_SHAPES, repeat=L):
-            for pat in AMP_PATTERNS:
+        for ci, ctrl in enumerate(itertools.product(CTRL_SHAPES, repeat=L)):
+            # length 5: one amplification pattern per control shape, rotating (the factor never steers control flow)
+            for pat in (AMP_PATTERNS if L <= 4 else [AMP_PATTERNS[ci % 3]]):
                 stages = tuple(c + (pat[i],) for i, c in enumerate(ctrl))
                 for halt in (1, 0):
                     out.append(("syn", (halt, 3, stages), dev))
